@@ -1,6 +1,8 @@
 (* C07 proofs *)
 From Coq Require Import Lia ZifyBool Sorting.Permutation.
 From ASV.C07 Require Import Model.
+From ASV.C04 Require Proofs.
+From ASV.C03 Require Model Proofs.
 
 Section Cache.
 Context {R I O : Type}.
@@ -76,3 +78,412 @@ Proof.
   replace (pe b + k - (ps a + k) + w) with (pe b - ps a + w) by lia.
   reflexivity.
 Qed.
+
+(* ---------- remove_redundant_protoclusters ---------- *)
+(* the CDS ranges of the two cores meet: neither lies wholly before the other *)
+Definition cds_ranges_meet (o c : pc) : Prop := pc_first c <= pc_last o /\ pc_first o <= pc_last c.
+(* "a superior covering the same (or larger) region" *)
+Definition covers (o c : pc) : Prop := contains (pc_core o) (pc_core c) = true \/ cds_ranges_meet o c.
+Definition coversb (o c : pc) : bool :=
+  contains (pc_core o) (pc_core c) || (negb (pc_last o <? pc_first c) && negb (pc_last c <? pc_first o)).
+
+Lemma coversb_spec o c : coversb o c = true <-> covers o c.
+Proof. unfold coversb, covers, cds_ranges_meet. destruct (contains (pc_core o) (pc_core c)); cbn; [tauto|]. split; [intros H; right; lia|intros [H|H]; [discriminate|lia]]. Qed.
+
+Lemma redundant_inner_spec c : forall others flag,
+  redundant_inner c others flag = flag || existsb (fun o => coversb o c) others.
+Proof.
+  induction others as [|o rest IH]; intros flag; cbn [redundant_inner existsb].
+  - rewrite orb_false_r. reflexivity.
+  - unfold coversb at 1. destruct (contains (pc_core o) (pc_core c)); cbn [orb].
+    + rewrite IH. cbn. rewrite orb_true_r. reflexivity.
+    + destruct (pc_last o <? pc_first c); cbn [negb andb orb]; [apply IH|].
+      destruct (pc_last c <? pc_first o); cbn [negb andb orb]; [apply IH|]. rewrite orb_true_r. reflexivity.
+Qed.
+
+Lemma redundant_outer_spec c by_rule : forall sups,
+  redundant_outer c sups by_rule = existsb (fun s => existsb (fun o => coversb o c) (by_rule s)) sups.
+Proof.
+  induction sups as [|s rest IH]; cbn [redundant_outer existsb]; [reflexivity|].
+  rewrite redundant_inner_spec. cbn [orb]. destruct (existsb (fun o => coversb o c) (by_rule s)); cbn [orb]; [reflexivity|apply IH].
+Qed.
+
+(* the order-free meaning of the removal: some cluster of a superior rule covers this one *)
+Definition redundant (sup : list (Z * list Z)) (cs : list pc) (c : pc) : Prop :=
+  exists o, In o cs /\ In (pc_rule o) (superiors_of sup (pc_rule c)) /\ covers o c.
+
+Lemma redundant_iff sup cs c :
+  redundant_outer c (superiors_of sup (pc_rule c)) (clusters_by_rule cs) = true <-> redundant sup cs c.
+Proof.
+  rewrite redundant_outer_spec, existsb_exists. unfold redundant, clusters_by_rule. split.
+  - intros (s & Hs & Hex). apply existsb_exists in Hex. destruct Hex as (o & Ho & Hc).
+    apply filter_In in Ho. destruct Ho as [Ho Hr]. exists o. split; [exact Ho|]. split.
+    + replace (pc_rule o) with s by lia. exact Hs.
+    + apply coversb_spec. exact Hc.
+  - intros (o & Ho & Hs & Hc). exists (pc_rule o). split; [exact Hs|]. apply existsb_exists. exists o. split.
+    + apply filter_In. split; [exact Ho|lia].
+    + apply coversb_spec. exact Hc.
+Qed.
+
+Lemma remove_redundant_spec sup cs c :
+  In c (remove_redundant sup cs) <-> In c cs /\ ~ redundant sup cs c.
+Proof.
+  unfold remove_redundant. rewrite filter_In, negb_true_iff, <- redundant_iff.
+  destruct (redundant_outer c (superiors_of sup (pc_rule c)) (clusters_by_rule cs)); split; intros [H1 H2]; split; auto; try discriminate.
+  exfalso. apply H2. reflexivity.
+Qed.
+
+Lemma perm_filter {A} (f : A -> bool) l l' : Permutation l l' -> Permutation (filter f l) (filter f l').
+Proof.
+  induction 1 as [|x l l' Hp IH|x y l|l l' l'' H1 IH1 H2 IH2]; cbn.
+  - constructor.
+  - destruct (f x); [constructor|]; exact IH.
+  - destruct (f x), (f y); try apply Permutation_refl. apply perm_swap.
+  - eapply Permutation_trans; eassumption.
+Qed.
+
+Lemma filter_ext_in' {A} (f g : A -> bool) l : (forall a, In a l -> f a = g a) -> filter f l = filter g l.
+Proof.
+  induction l as [|x l IH]; intros H; cbn; [reflexivity|].
+  rewrite (H x (or_introl eq_refl)), IH; [reflexivity|]. intros a Ha. apply H. right. exact Ha.
+Qed.
+
+Lemma redundant_perm sup cs cs' c : Permutation cs cs' -> redundant sup cs c -> redundant sup cs' c.
+Proof. intros Hp (o & Ho & H). exists o. split; [eapply Permutation_in; eassumption|exact H]. Qed.
+
+(* the kept clusters do not depend on the order in which the clusters (hence the rules) are listed *)
+Lemma remove_redundant_perm sup cs cs' :
+  Permutation cs cs' -> Permutation (remove_redundant sup cs) (remove_redundant sup cs').
+Proof.
+  intros Hp. unfold remove_redundant.
+  eapply Permutation_trans; [apply perm_filter; exact Hp|].
+  erewrite filter_ext_in'; [apply Permutation_refl|].
+  intros c _. apply (f_equal negb). apply eq_iff_eq_true. rewrite !redundant_iff.
+  split; apply redundant_perm; [|apply Permutation_sym]; exact Hp.
+Qed.
+
+(* a cluster of a rule without superiors is never removed; removal never invents clusters *)
+Lemma remove_redundant_no_superiors sup cs c :
+  In c cs -> superiors_of sup (pc_rule c) = [] -> In c (remove_redundant sup cs).
+Proof. intros Hin Hs. apply remove_redundant_spec. split; [exact Hin|]. intros (o & _ & Ho & _). rewrite Hs in Ho. destruct Ho. Qed.
+
+(* ---------- rotation primitives: overlap and containment ---------- *)
+Lemma existsb_map {A B} (f : B -> bool) (g : A -> B) l : existsb f (map g l) = existsb (fun x => f (g x)) l.
+Proof. induction l as [|x l IH]; cbn; [reflexivity|]. rewrite IH. reflexivity. Qed.
+Lemma forallb_map {A B} (f : B -> bool) (g : A -> B) l : forallb f (map g l) = forallb (fun x => f (g x)) l.
+Proof. induction l as [|x l IH]; cbn; [reflexivity|]. rewrite IH. reflexivity. Qed.
+Lemma existsb_ext' {A} (f g : A -> bool) l : (forall x, f x = g x) -> existsb f l = existsb g l.
+Proof. intros H. induction l as [|x l IH]; cbn; [reflexivity|]. rewrite H, IH. reflexivity. Qed.
+Lemma forallb_ext' {A} (f g : A -> bool) l : (forall x, f x = g x) -> forallb f l = forallb g l.
+Proof. intros H. induction l as [|x l IH]; cbn; [reflexivity|]. rewrite H, IH. reflexivity. Qed.
+
+Definition shiftl (k : Z) (l : loc) : loc := map (shiftp k) l.
+
+Lemma part_contains_shift k o i : part_contains (shiftp k o) (shiftp k i) = part_contains o i.
+Proof. unfold part_contains, shiftp. cbn [ps pe]. lia. Qed.
+
+Lemma overlap_shift k a b : overlap (shiftl k a) (shiftl k b) = overlap a b.
+Proof.
+  unfold overlap, shiftl. rewrite existsb_map. apply existsb_ext'. intros p.
+  rewrite existsb_map. apply existsb_ext'. intros q. apply part_overlap_shift.
+Qed.
+
+Lemma contains_shift k o i : contains (shiftl k o) (shiftl k i) = contains o i.
+Proof.
+  unfold contains, shiftl. rewrite forallb_map. apply forallb_ext'. intros p.
+  rewrite existsb_map. apply existsb_ext'. intros q. apply part_contains_shift.
+Qed.
+
+(* ---------- rotation of the origin by k on a ring of length N ----------
+   a part that the new origin does not cut moves by k, or by k - N when it lies behind the cut *)
+Definition in_rec (N : Z) (p : part) : Prop := 0 <= ps p /\ ps p < pe p /\ pe p <= N.
+Definition uncut (N k : Z) (p : part) : Prop := pe p + k <= N \/ N <= ps p + k.
+Definition rotp (N k : Z) (p : part) : part := if pe p + k <=? N then shiftp k p else shiftp (k - N) p.
+
+Lemma rotp_in_rec N k p : 0 <= k < N -> in_rec N p -> uncut N k p -> in_rec N (rotp N k p).
+Proof. unfold in_rec, uncut, rotp. intros Hk Hp Hu. destruct (pe p + k <=? N) eqn:E; unfold shiftp; cbn [ps pe]; lia. Qed.
+
+Lemma part_overlap_rot N k a b : 0 <= k < N -> in_rec N a -> in_rec N b -> uncut N k a -> uncut N k b ->
+  part_overlap (rotp N k a) (rotp N k b) = part_overlap a b.
+Proof.
+  unfold in_rec, uncut, rotp. intros Hk Ha Hb Hua Hub.
+  destruct (pe a + k <=? N) eqn:Ea; destruct (pe b + k <=? N) eqn:Eb;
+    unfold part_overlap, in_part, shiftp; cbn [ps pe]; lia.
+Qed.
+
+Lemma part_contains_rot N k o i : 0 <= k < N -> in_rec N o -> in_rec N i -> uncut N k o -> uncut N k i ->
+  part_contains (rotp N k o) (rotp N k i) = part_contains o i.
+Proof.
+  unfold in_rec, uncut, rotp. intros Hk Ha Hb Hua Hub.
+  destruct (pe o + k <=? N) eqn:Ea; destruct (pe i + k <=? N) eqn:Eb;
+    unfold part_contains, shiftp; cbn [ps pe]; lia.
+Qed.
+
+Lemma ring_gap_rot N k a b : 0 <= k < N -> in_rec N a -> in_rec N b -> uncut N k a -> uncut N k b ->
+  part_overlap a b = false ->
+  Z.min (C04.Proofs.wrap_gap N (rotp N k a) (rotp N k b)) (C04.Proofs.gap (rotp N k a) (rotp N k b))
+  = Z.min (C04.Proofs.wrap_gap N a b) (C04.Proofs.gap a b).
+Proof.
+  intros Hk Ha Hb Hua Hub Ho.
+  apply C04.Proofs.part_overlap_false in Ho; [|unfold C04.Proofs.wf_part, in_rec in *; lia|unfold C04.Proofs.wf_part, in_rec in *; lia].
+  unfold in_rec, uncut, rotp in *.
+  destruct (pe a + k <=? N) eqn:Ea; destruct (pe b + k <=? N) eqn:Eb;
+    unfold C04.Proofs.wrap_gap, C04.Proofs.gap, shiftp; cbn [ps pe];
+    repeat match goal with |- context [?x <=? ?y] => destruct (x <=? y) eqn:? end; lia.
+Qed.
+
+(* ring distance is the same in both frames, also for a pair separated by the new origin *)
+Lemma pdist_rot N k a b : 0 <= k < N -> in_rec N a -> in_rec N b -> uncut N k a -> uncut N k b ->
+  pdist (rotp N k a) (rotp N k b) (Some N) = pdist a b (Some N).
+Proof.
+  intros Hk Ha Hb Hua Hub.
+  pose proof (rotp_in_rec N k a Hk Ha Hua) as Ha'. pose proof (rotp_in_rec N k b Hk Hb Hub) as Hb'.
+  rewrite (C04.Proofs.pdist_ring_spec N (rotp N k a) (rotp N k b)); try (unfold C04.Proofs.wf_part, in_rec in *; lia).
+  rewrite (C04.Proofs.pdist_ring_spec N a b); try (unfold C04.Proofs.wf_part, in_rec in *; lia).
+  rewrite part_overlap_rot by assumption.
+  destruct (part_overlap a b) eqn:Ho; [reflexivity|]. apply ring_gap_rot; assumption.
+Qed.
+
+Lemma dist_rot_simple N k a b : 0 <= k < N -> in_rec N a -> in_rec N b -> uncut N k a -> uncut N k b ->
+  dist [rotp N k a] [rotp N k b] (Some N) = dist [a] [b] (Some N).
+Proof.
+  intros Hk Ha Hb Hua Hub. unfold dist, overlap. cbn [existsb]. rewrite !orb_false_r.
+  rewrite part_overlap_rot by assumption. rewrite pdist_rot by assumption. reflexivity.
+Qed.
+
+(* ---------- chain level: the sweep of C03 commutes with a change of frame that moves every
+   anchoring gene by the same amount (both origins outside the span of the anchors) ---------- *)
+Module M3 := ASV.C03.Model.
+Module P3 := ASV.C03.Proofs.
+
+Definition shifti (k : Z) (i : M3.itv) : M3.itv := M3.mkItv (M3.s i + k) (M3.e i + k).
+Definition shiftg (k : Z) (g : M3.group) : M3.group :=
+  let '(cs, he, ms) := g in (cs + k, he + k, map (shifti k) ms).
+
+Lemma itv_lt_shift k a b : M3.itv_lt (shifti k a) (shifti k b) = M3.itv_lt a b.
+Proof. unfold M3.itv_lt, shifti. cbn [M3.s M3.e]. lia. Qed.
+
+Lemma insert_shift k x : forall l,
+  insert_by M3.itv_lt (shifti k x) (map (shifti k) l) = map (shifti k) (insert_by M3.itv_lt x l).
+Proof.
+  induction l as [|y l IH]; cbn [insert_by map]; [reflexivity|].
+  rewrite itv_lt_shift. destruct (M3.itv_lt x y); cbn [map]; [reflexivity|]. rewrite IH. reflexivity.
+Qed.
+
+Lemma sort_shift_acc k : forall l acc,
+  fold_left (fun acc x => insert_by M3.itv_lt x acc) (map (shifti k) l) (map (shifti k) acc)
+  = map (shifti k) (fold_left (fun acc x => insert_by M3.itv_lt x acc) l acc).
+Proof.
+  induction l as [|x l IH]; intros acc; cbn [fold_left map]; [reflexivity|].
+  rewrite insert_shift. apply IH.
+Qed.
+
+Lemma sort_shift k l : sort_by M3.itv_lt (map (shifti k) l) = map (shifti k) (sort_by M3.itv_lt l).
+Proof. unfold sort_by. apply (sort_shift_acc k l []). Qed.
+
+Lemma step_shift N c k gs i : P3.wf N i -> P3.wf N (shifti k i) ->
+  M3.step N c (map (shiftg k) gs) (shifti k i) = map (shiftg k) (M3.step N c gs i).
+Proof.
+  unfold P3.wf, shifti. cbn [M3.s M3.e]. intros Hi Hk.
+  destruct gs as [|[[cs he] ms] rest]; cbn [M3.step map shiftg M3.s M3.e]; [reflexivity|].
+  assert (Ht : ((M3.s i + k <? Z.min N (he + k + c)) && (Z.max 0 (cs + k - c) <? M3.e i + k))
+               = ((M3.s i <? Z.min N (he + c)) && (Z.max 0 (cs - c) <? M3.e i))) by lia.
+  rewrite Ht. destruct ((M3.s i <? Z.min N (he + c)) && (Z.max 0 (cs - c) <? M3.e i)); cbn [map shiftg]; [|reflexivity].
+  rewrite Z.add_min_distr_r, Z.add_max_distr_r. reflexivity.
+Qed.
+
+Lemma sweep_shift_acc N c k : forall l gs, Forall (P3.wf N) l -> Forall (P3.wf N) (map (shifti k) l) ->
+  fold_left (M3.step N c) (map (shifti k) l) (map (shiftg k) gs) = map (shiftg k) (fold_left (M3.step N c) l gs).
+Proof.
+  induction l as [|x l IH]; intros gs H1 H2; cbn [fold_left map]; [reflexivity|].
+  inversion H1; subst. cbn [map] in H2. inversion H2; subst.
+  rewrite step_shift by assumption. apply IH; assumption.
+Qed.
+
+Lemma sweep_shift N c k anchors : Forall (P3.wf N) anchors -> Forall (P3.wf N) (map (shifti k) anchors) ->
+  M3.sweep N c (sort_by M3.itv_lt (map (shifti k) anchors))
+  = map (shiftg k) (M3.sweep N c (sort_by M3.itv_lt anchors)).
+Proof.
+  intros H1 H2. rewrite sort_shift. unfold M3.sweep.
+  apply (sweep_shift_acc N c k (sort_by M3.itv_lt anchors) []).
+  - eapply Permutation_Forall; [apply P3.sort_perm|exact H1].
+  - rewrite <- sort_shift. eapply Permutation_Forall; [apply P3.sort_perm|exact H2].
+Qed.
+
+(* ---------- connect_locations / extend_location on a ring, away from the origin ---------- *)
+Module P4 := ASV.C04.Proofs.
+
+Lemma mapM_reduce_simple_wrap w locs : P4.simple_locs locs ->
+  mapM (fun l => reduce_parts l w) locs = Ok locs.
+Proof.
+  induction 1 as [|l locs [p ->] _ IH]; simpl; [reflexivity|].
+  rewrite IH. reflexivity.
+Qed.
+
+Lemma simple_bounds locs x : P4.simple_locs locs -> Forall P4.wf_loc locs -> In x locs ->
+  lmin (map lstart locs) <= lstart x /\ lstart x < lend x /\ lend x <= lmax (map lend locs).
+Proof.
+  intros Hs Hwf Hin. split; [apply P4.lmin_le, in_map, Hin|]. split; [|apply P4.lmax_ge, in_map, Hin].
+  unfold P4.simple_locs in Hs. rewrite Forall_forall in Hs, Hwf.
+  destruct (Hs x Hin) as [p ->]. destruct (Hwf [p] Hin) as [_ Hw]. inversion Hw; subst. unfold P4.wf_part in *. cbn. assumption.
+Qed.
+
+Lemma wrapping_shorter_short locs N : P4.simple_locs locs -> Forall P4.wf_loc locs ->
+  lmax (map lend locs) - lmin (map lstart locs) <= N / 2 -> wrapping_shorter locs N = false.
+Proof.
+  intros Hs Hwf Hspan. unfold wrapping_shorter. rewrite P4.existsb_bridges_simple by assumption.
+  pose proof (ASV.C03.Proofs.sort_perm key_lt locs) as Hp.
+  destruct (sort_by key_lt locs) as [|first rest]; [reflexivity|].
+  destruct (existsb (fun second => N / 2 <? lstart second - lend first) rest) eqn:E; [|reflexivity].
+  apply existsb_exists in E. destruct E as (second & Hin & Hlt).
+  assert (H1 : In first locs) by (eapply Permutation_in; [apply Permutation_sym, Hp|left; reflexivity]).
+  assert (H2 : In second locs) by (eapply Permutation_in; [apply Permutation_sym, Hp|right; exact Hin]).
+  pose proof (simple_bounds locs first Hs Hwf H1). pose proof (simple_bounds locs second Hs Hwf H2). lia.
+Qed.
+
+Lemma connect_ring_short locs N : locs <> [] -> P4.simple_locs locs -> Forall P4.wf_loc locs -> 0 < N ->
+  lmax (map lend locs) - lmin (map lstart locs) <= N / 2 ->
+  connect_locations locs (Some N) = connect_locations locs None.
+Proof.
+  intros Hne Hs Hwf HN Hspan.
+  destruct (P4.connect_line_simple locs Hne Hs Hwf) as (h & Hh & _).
+  assert (Hline : connect_line locs = Ok [h]).
+  { rewrite <- Hh. unfold connect_locations, connect_fuel.
+    destruct locs as [|l0 locs']; [congruence|].
+    replace (2 * length (l0 :: locs') + 8)%nat with (S (2 * length (l0 :: locs') + 7))%nat by lia.
+    reflexivity. }
+  rewrite Hh. unfold connect_locations, connect_fuel.
+  destruct locs as [|l0 locs']; [congruence|].
+  set (locs := l0 :: locs') in *.
+  replace (2 * length locs + 8)%nat with (S (2 * length locs + 7))%nat by lia.
+  cbn [connect]. fold locs.
+  rewrite P4.existsb_bridges_simple by assumption.
+  rewrite mapM_reduce_simple_wrap by assumption. cbn [bind].
+  destruct (N <=? 0) eqn:EN; [lia|].
+  unfold merge_over_origin, split_sections. rewrite wrapping_shorter_short by assumption.
+  cbn [negb bind]. unfold locs at 1. fold locs. rewrite Hline. cbn [bind is_compound]. reflexivity.
+Qed.
+
+
+Lemma lmin_shift k l : l <> [] -> lmin (map (fun x => x + k) l) = lmin l + k.
+Proof.
+  intros Hne. assert (Hne' : map (fun x => x + k) l <> []) by (destruct l; [congruence|discriminate]).
+  pose proof (P4.lmin_in _ Hne') as Hin. apply in_map_iff in Hin. destruct Hin as (y & Hy & Hyl).
+  pose proof (P4.lmin_le l y Hyl).
+  pose proof (P4.lmin_le (map (fun x => x + k) l) (lmin l + k)) as H2.
+  specialize (H2 (in_map (fun x => x + k) l _ (P4.lmin_in l Hne))). lia.
+Qed.
+Lemma lmax_shift k l : l <> [] -> lmax (map (fun x => x + k) l) = lmax l + k.
+Proof.
+  intros Hne. assert (Hne' : map (fun x => x + k) l <> []) by (destruct l; [congruence|discriminate]).
+  pose proof (P4.lmax_in _ Hne') as Hin. apply in_map_iff in Hin. destruct Hin as (y & Hy & Hyl).
+  pose proof (P4.lmax_ge l y Hyl).
+  pose proof (P4.lmax_ge (map (fun x => x + k) l) (lmax l + k)) as H2.
+  specialize (H2 (in_map (fun x => x + k) l _ (P4.lmax_in l Hne))). lia.
+Qed.
+
+Lemma simple_shift k locs : P4.simple_locs locs -> P4.simple_locs (map (shiftl k) locs).
+Proof. induction 1 as [|l locs [p ->] _ IH]; constructor; [exists (shiftp k p); reflexivity|exact IH]. Qed.
+Lemma wf_shift k locs : P4.simple_locs locs -> Forall P4.wf_loc locs -> Forall P4.wf_loc (map (shiftl k) locs).
+Proof.
+  induction 1 as [|l locs [p ->] _ IH]; intros Hwf; inversion Hwf as [|x xs [_ Hw] Hr]; subst; constructor; [|apply IH; exact Hr].
+  split; [discriminate|]. inversion Hw; subst. repeat constructor. unfold P4.wf_part, shiftp in *. cbn [ps pe]. lia.
+Qed.
+Lemma starts_shift k locs : P4.simple_locs locs ->
+  map lstart (map (shiftl k) locs) = map (fun x => x + k) (map lstart locs).
+Proof. induction 1 as [|l locs [p ->] _ IH]; cbn [map]; [reflexivity|]. rewrite IH. reflexivity. Qed.
+Lemma ends_shift k locs : P4.simple_locs locs ->
+  map lend (map (shiftl k) locs) = map (fun x => x + k) (map lend locs).
+Proof. induction 1 as [|l locs [p ->] _ IH]; cbn [map]; [reflexivity|]. rewrite IH. reflexivity. Qed.
+Lemma strand_shift k locs : P4.simple_locs locs -> common_strand (map (shiftl k) locs) = common_strand locs.
+Proof.
+  intros Hs. destruct Hs as [|l locs [p ->] Hr]; [reflexivity|]. cbn [map common_strand].
+  replace (lstrand (shiftl k [p])) with (lstrand [p]) by reflexivity.
+  rewrite forallb_map.
+  rewrite (forallb_ext' _ (fun q => lstrand q =? lstrand [p])); [reflexivity|].
+  intros q. destruct q as [|q0 qr]; [reflexivity|]. cbn [shiftl map lstrand].
+  rewrite forallb_map. reflexivity.
+Qed.
+
+(* connecting single-part areas whose hull is at most half the ring commutes with moving them all by k *)
+Lemma connect_shift_ring locs N k : locs <> [] -> P4.simple_locs locs -> Forall P4.wf_loc locs -> 0 < N ->
+  lmax (map lend locs) - lmin (map lstart locs) <= N / 2 ->
+  exists h, connect_locations locs (Some N) = Ok [h] /\
+            connect_locations (map (shiftl k) locs) (Some N) = Ok [shiftp k h].
+Proof.
+  intros Hne Hs Hwf HN Hspan.
+  assert (Hne' : map (shiftl k) locs <> []) by (destruct locs; [congruence|discriminate]).
+  assert (Hm1 : map lstart locs <> []) by (destruct locs; [congruence|discriminate]).
+  assert (Hm2 : map lend locs <> []) by (destruct locs; [congruence|discriminate]).
+  pose proof (simple_shift k locs Hs) as Hs'. pose proof (wf_shift k locs Hs Hwf) as Hwf'.
+  rewrite (connect_ring_short locs N) by assumption.
+  rewrite (connect_ring_short (map (shiftl k) locs) N); try assumption.
+  2:{ rewrite starts_shift, ends_shift by assumption. rewrite lmin_shift, lmax_shift by assumption. lia. }
+  destruct (P4.connect_line_simple locs Hne Hs Hwf) as (h & Hh & H1 & H2 & H3 & _).
+  destruct (P4.connect_line_simple _ Hne' Hs' Hwf') as (h' & Hh' & H1' & H2' & H3' & _).
+  exists h. split; [exact Hh|]. rewrite Hh'. f_equal. f_equal.
+  rewrite starts_shift, lmin_shift in H1' by assumption. rewrite ends_shift, lmax_shift in H2' by assumption.
+  rewrite strand_shift in H3' by assumption.
+  destruct h as [a b c], h' as [a' b' c']. unfold shiftp. cbn [ps pe pst] in *. subst. reflexivity.
+Qed.
+
+Lemma extend_ring_inner p d N :
+  0 <= d -> 0 <= ps p - d -> ps p < pe p -> pe p + d <= N ->
+  extend_location [p] d N true = Ok [mkPart (ps p - d) (pe p + d) (pst p)].
+Proof.
+  intros Hd H0 Hlt HN. unfold extend_location.
+  assert (Hst : lstrand [p] = pst p) by reflexivity. rewrite Hst.
+  assert (Hrev : (if pst p =? -1 then rev [p] else [p]) = [p]) by (destruct (pst p =? -1); reflexivity).
+  rewrite Hrev. cbn [last_opt rev app].
+  assert (E0 : (ps p - d <? 0) = false) by lia. rewrite E0. cbn [andb].
+  cbn [length merge_ends last_opt rev app tl removelast].
+  rewrite E0. cbn [andb].
+  unfold mkFL. cbn [ps pe pst].
+  destruct (pe p <? Z.max 0 (ps p - d)) eqn:E1; [lia|]. cbn [bind last_opt rev app].
+  cbn [ps pe pst].
+  assert (E2 : (N <? pe p + d) = false) by lia. rewrite E2. cbn [andb].
+  destruct (Z.min (pe p + d) N <? Z.max 0 (ps p - d)) eqn:E3; [lia|].
+  cbn [bind removelast app length merge_ends last_opt rev].
+  rewrite Z.max_r by lia. rewrite Z.min_l by lia. reflexivity.
+Qed.
+
+(* extending a single part by the cutoff/neighbourhood commutes with moving it, as long as the
+   extension stays inside the record in both frames *)
+Lemma extend_shift_ring p d N k :
+  0 <= d -> ps p < pe p -> 0 <= ps p - d -> pe p + d <= N -> 0 <= ps p + k - d -> pe p + k + d <= N ->
+  exists r, extend_location [p] d N true = Ok r /\ extend_location (shiftl k [p]) d N true = Ok (shiftl k r).
+Proof.
+  intros Hd Hlt H0 HN H0' HN'. eexists. split; [apply extend_ring_inner; assumption|].
+  cbn [shiftl map]. rewrite extend_ring_inner; unfold shiftp; cbn [ps pe pst]; try lia.
+  f_equal. f_equal. f_equal; lia.
+Qed.
+
+(* ---------- conjunctions stated as theorems ---------- *)
+Lemma rotation_overlap_contains k a b :
+  overlap (shiftl k a) (shiftl k b) = overlap a b /\ contains (shiftl k a) (shiftl k b) = contains a b.
+Proof. split; [apply overlap_shift|apply contains_shift]. Qed.
+
+Lemma rotation_ring_primitives N k a b :
+  0 <= k < N -> in_rec N a -> in_rec N b -> uncut N k a -> uncut N k b ->
+  in_rec N (rotp N k a) /\
+  part_overlap (rotp N k a) (rotp N k b) = part_overlap a b /\
+  part_contains (rotp N k a) (rotp N k b) = part_contains a b /\
+  pdist (rotp N k a) (rotp N k b) (Some N) = pdist a b (Some N) /\
+  dist [rotp N k a] [rotp N k b] (Some N) = dist [a] [b] (Some N).
+Proof.
+  intros Hk Ha Hb Hua Hub.
+  split; [apply rotp_in_rec; assumption|]. split; [apply part_overlap_rot; assumption|].
+  split; [apply part_contains_rot; assumption|]. split; [apply pdist_rot; assumption|apply dist_rot_simple; assumption].
+Qed.
+
+Lemma rotation_connect locs N k :
+  locs <> [] -> P4.simple_locs locs -> Forall P4.wf_loc locs -> 0 < N ->
+  lmax (map lend locs) - lmin (map lstart locs) <= N / 2 ->
+  connect_locations locs (Some N) = connect_locations locs None /\
+  exists h, connect_locations locs (Some N) = Ok [h] /\
+            connect_locations (map (shiftl k) locs) (Some N) = Ok [shiftp k h].
+Proof. intros. split; [apply connect_ring_short; assumption|apply connect_shift_ring; assumption]. Qed.
+
+Lemma cache_transparent_nil {R I O : Type} (cutoff_of : R -> Z) (info : Z -> I) (detect : R -> I -> O) rules :
+  eval_rules cutoff_of info detect [] rules = map (fun r => detect r (info (cutoff_of r))) rules.
+Proof. apply eval_rules_transparent. apply cache_ok_nil. Qed.
